@@ -13,11 +13,14 @@ def signature_of(m):
     return [m['inv'], O.op_key(m['op']), dg(m['observed'])]
 
 
-def has_signature(res, sig):
+def has_signature(res, sig, loose=False):
+    """Same violation = same invariant, same op, same deviating observable.  `loose` drops the last condition: a result
+    that embeds a memory address deviates differently in every process; what reproduces is that this op deviates."""
     if 'harness_error' in res:
         return False
     for m in res.get('mismatches', []):
-        if signature_of(m) == sig:
+        s2 = signature_of(m)
+        if s2 == sig or (loose and s2[:2] == sig[:2]):
             return True
     return False
 
